@@ -1,0 +1,16 @@
+//go:build verif
+
+package builder
+
+import "reflect"
+
+// VerifGate, when set by a test harness, is called at the linearisation points of the
+// session type cache (load, loadorstore, generate, done, store, wait). A blocking
+// function doubles as a scheduler gate. Only compiled with the build tag "verif".
+var VerifGate func(point string, t reflect.Type)
+
+func verifGate(point string, t reflect.Type) {
+	if f := VerifGate; f != nil {
+		f(point, t)
+	}
+}
